@@ -654,3 +654,173 @@ func OwnWriterCache(p *load.Program) *report.RuleResult {
 	}
 	return r
 }
+
+// TabIndexPair implements TAB-INDEXPAIR: wherever a symbol table object is
+// built, its text index describes exactly the symbols it is built with.
+func TabIndexPair(p *load.Program) *report.RuleResult {
+	r := newResult("TAB-INDEXPAIR", "in every composite literal of a symbol table type (sst, lst) the fields symbols and index are a consistent pair: the index is buildIndex of the very slice stored as symbols, or both are taken unmodified from one existing table, or both are copies made from one builder; an index that describes other symbols than the table holds resolves text to IDs the table does not define", 4)
+	n := 0
+	for _, fn := range sortedFuncs(p) {
+		if p.InTest(fn) || fn.Pkg != p.Ion {
+			continue
+		}
+		for _, b := range fn.Blocks {
+			for _, in := range b.Instrs {
+				al, ok := in.(*ssa.Alloc)
+				if !ok {
+					continue
+				}
+				tn := ssau.TypeName(al.Type())
+				if tn != "sst" && tn != "lst" {
+					continue
+				}
+				var symV, idxV ssa.Value
+				for _, u := range *al.Referrers() {
+					fa, ok := u.(*ssa.FieldAddr)
+					if !ok {
+						continue
+					}
+					_, f, _ := ssau.FieldOf(fa)
+					for _, u2 := range *fa.Referrers() {
+						if st, ok := u2.(*ssa.Store); ok && st.Addr == ssa.Value(fa) {
+							switch f {
+							case "symbols":
+								symV = st.Val
+							case "index":
+								idxV = st.Val
+							}
+						}
+					}
+				}
+				if symV == nil && idxV == nil {
+					continue
+				}
+				n++
+				name := p.FuncName(fn)
+				what := tn + " built with symbols/index"
+				by := indexPairOK(p, symV, idxV)
+				if by != "" {
+					r.OK(name, instrPos(p, al), what, by)
+				} else {
+					r.Bad(name, instrPos(p, al), what, sprintf("symbols = %s but index = %s: the index is not derived from the symbols this table holds (a truncated, extended or foreign symbol list needs its own index)", describeVal(symV), describeVal(idxV)))
+				}
+			}
+		}
+	}
+	if n < 4 {
+		missing(r, "symbol table literals", sprintf("found %d, expected at least 4", n))
+	}
+	return r
+}
+
+func describeVal(v ssa.Value) string {
+	if v == nil {
+		return "(unset)"
+	}
+	return cleanPath(ssau.Path(v))
+}
+
+func indexPairOK(p *load.Program, symV, idxV ssa.Value) string {
+	if symV == nil || idxV == nil {
+		if symV == nil && idxV != nil {
+			if mm, ok := idxV.(*ssa.MakeMap); ok && len(*mm.Referrers()) <= 2 {
+				return "no symbols and a fresh empty index"
+			}
+		}
+		return ""
+	}
+	// (a) index = buildIndex(symbols, _)
+	if c, ok := idxV.(*ssa.Call); ok {
+		if f := c.Call.StaticCallee(); f != nil && f.Name() == "buildIndex" && len(c.Call.Args) >= 1 {
+			if c.Call.Args[0] == symV {
+				return "index = buildIndex of the slice stored as symbols"
+			}
+			return ""
+		}
+	}
+	// (b) both unmodified loads from one object
+	ts, fs, bs, oks := fieldLoadExact(symV)
+	ti, fi, bi2, oki := fieldLoadExact(idxV)
+	if oks && oki && fs == "symbols" && fi == "index" && ts == ti && bs == bi2 {
+		return "both taken unmodified from one existing table"
+	}
+	// (c) both copies made from one object (append/copy of o.symbols; a fresh map filled from o.index)
+	so, si := copySource(symV, "symbols", 0), copySource(idxV, "index", 0)
+	if so != "" && so == si {
+		return "both copied from " + cleanPath(so)
+	}
+	return ""
+}
+
+// fieldLoadExact: v is exactly a load of field f of object base (no slicing).
+func fieldLoadExact(v ssa.Value) (string, string, ssa.Value, bool) {
+	switch x := v.(type) {
+	case *ssa.UnOp:
+		if fa, ok := x.X.(*ssa.FieldAddr); ok && x.Op == token.MUL {
+			t, f, _ := ssau.FieldOf(fa)
+			return t, f, fa.X, t != ""
+		}
+	case *ssa.Field:
+		t, f, _ := ssau.FieldOf(x)
+		return t, f, x.X, t != ""
+	}
+	return "", "", nil, false
+}
+
+// copySource: the path of the object whose field `field` v was copied from.
+func copySource(v ssa.Value, field string, depth int) string {
+	if depth > 5 {
+		return ""
+	}
+	if _, f, base, ok := fieldLoadExact(v); ok && f == field {
+		return ssau.Path(base)
+	}
+	switch x := v.(type) {
+	case *ssa.Call:
+		if ssau.IsBuiltinCall(x, "append") {
+			for _, a := range x.Call.Args {
+				if s := copySource(a, field, depth+1); s != "" {
+					return s
+				}
+			}
+		}
+	case *ssa.Slice:
+		if x.Low == nil && x.High == nil {
+			return copySource(x.X, field, depth+1)
+		}
+	case *ssa.MakeSlice:
+		// make + copy(dst, src)
+		for _, u := range *x.Referrers() {
+			if c, ok := u.(*ssa.Call); ok && ssau.IsBuiltinCall(c, "copy") && len(c.Call.Args) == 2 && c.Call.Args[0] == ssa.Value(x) {
+				return copySource(c.Call.Args[1], field, depth+1)
+			}
+		}
+	case *ssa.MakeMap:
+		// filled by m[k] = v while ranging over o.index
+		for _, u := range *x.Referrers() {
+			mu, ok := u.(*ssa.MapUpdate)
+			if !ok {
+				continue
+			}
+			// key comes from a Next over a Range of o.index
+			if ex, ok := mu.Key.(*ssa.Extract); ok {
+				if nx, ok := ex.Tuple.(*ssa.Next); ok {
+					if rg, ok := nx.Iter.(*ssa.Range); ok {
+						return copySource(rg.X, field, depth+1)
+					}
+				}
+			}
+		}
+	case *ssa.Phi:
+		src := ""
+		for _, e := range x.Edges {
+			s := copySource(e, field, depth+1)
+			if s == "" || (src != "" && s != src) {
+				return ""
+			}
+			src = s
+		}
+		return src
+	}
+	return ""
+}
